@@ -121,6 +121,10 @@ func findFieldByProtoName(message *protogen.Message, fieldName string) *protogen
 
 // isPathParamCompatible checks if a field type can be used as a path parameter.
 func isPathParamCompatible(field *protogen.Field) bool {
+	// A path segment carries exactly one value: repeated and map fields cannot be bound to it.
+	if field.Desc.IsList() || field.Desc.IsMap() {
+		return false
+	}
 	switch field.Desc.Kind() {
 	case protoreflect.StringKind,
 		protoreflect.Int32Kind, protoreflect.Sint32Kind, protoreflect.Sfixed32Kind,
